@@ -151,11 +151,6 @@ theorem C04_timer_cancel {τ} (t : Timer τ) (key : Nat × Nat) (e : TimerEntry 
 
 /-! ### the quantitative bound -/
 
-/-- a run of the handler: what it reacts to, with the instant of each reaction -/
-def HState.runOps (s : HState) : List (HOp × Nat) → HState
-  | [] => s
-  | (op, now) :: rest => HState.runOps (s.hstep op now) rest
-
 /-- the ghost bookkeeping along a run: start instant and first-round size of every search started -/
 def ghostRun (g : Nat → Nat × Nat) (s : HState) : List (HOp × Nat) → (Nat → Nat × Nat)
   | [] => g
